@@ -196,11 +196,10 @@ def compare_with_model(ctx, case, res, out):
         if len(mo) > 4:
             vi, ui, is_input, move = case['convs'][j]
             ctx.hist['step_ok=%d' % mo[4]] = ctx.hist.get('step_ok=%d' % mo[4], 0) + 1
-            if not mo[4] and not (len(mo) > 3 and mo[3] == 1):
-                # the premises of C06_sequence_equiv_partial fail although the step is not an INPUT conversion of the free
-                # variable covered by the specification-level theorem: the history is outside every theorem
-                return ('conversion %d: premises of the sequence theorem (step_ok) do not hold for this step and it is not a '
-                        'free-variable INPUT conversion covered by C06_input_free_spec_equiv' % j)
+            if not mo[4]:
+                # the premises of the C06 theorems (step_ok) fail for this step: the history is outside every theorem
+                return ('conversion %d: the premises of the C06 theorems (step_ok: fresh indices, distinct left-hand sides, '
+                        'indices in range, all ODEs with respect to the free variable) do not hold for this step' % j)
         if mo[1] != st[1]:
             return 'conversion %d: returned variable index differs: model %d implementation %d' % (j, mo[1], st[1])
         mvars, meqs = cvlib.decode_state(mo[2])
@@ -291,8 +290,8 @@ def run(ctx):
                 'histories of 1-4 conversions: any variable incl. previously created ones, any unit of its family (equivalent '
                 'ones included), both directions, both move_annotations; plus bundled documents; non-trivial = a conversion '
                 'with factor != 1 happened')
-    ctx.trusted += ['free-variable INPUT conversion: theorem about the specification system free_system; that the model\'s fold produces it '
-                    '(up to order) and that the theorem\'s premises hold is evaluated per case by free_spec_code, not proved',
+    ctx.trusted += ['the syntactic premises of the theorems (step_ok) are evaluated by the extracted model before every conversion '
+                    'of every case; free_spec_code re-computes the refinement proved in C06FoldP.v as a cross-check',
                     'conversion factors restricted to rationals with prime factors 2, 3, 5 (exact unit vectors)',
                     'SymPy builds / re-evaluates products: right-hand sides compared semantically (values + referenced atoms)']
     cases = load_corpus() + [gen_case(ctx.seed * 100000 + i) for i in range(n)]
